@@ -13,10 +13,44 @@ pub enum Nodes {
 }
 
 #[derive(Clone, Debug, Deserialize, Serialize, PartialEq)]
+#[serde(try_from = "NodesTimestampDataModel")]
 pub enum NodesTimestamp {
     F64(IndexMap<i64, f64>),
     Dual(IndexMap<i64, Dual>),
     Dual2(IndexMap<i64, Dual2>),
+}
+
+/// Deserialization data model: every key must be the timestamp of a representable datetime,
+/// as it is for nodes that were constructed from datetimes.
+#[derive(Deserialize)]
+#[serde(rename = "NodesTimestamp")]
+enum NodesTimestampDataModel {
+    F64(IndexMap<i64, f64>),
+    Dual(IndexMap<i64, Dual>),
+    Dual2(IndexMap<i64, Dual2>),
+}
+
+impl std::convert::TryFrom<NodesTimestampDataModel> for NodesTimestamp {
+    type Error = String;
+
+    fn try_from(model: NodesTimestampDataModel) -> Result<Self, Self::Error> {
+        fn valid<T>(m: &IndexMap<i64, T>) -> bool {
+            m.keys().all(|k| DateTime::from_timestamp(*k, 0).is_some())
+        }
+        let ok = match &model {
+            NodesTimestampDataModel::F64(m) => valid(m),
+            NodesTimestampDataModel::Dual(m) => valid(m),
+            NodesTimestampDataModel::Dual2(m) => valid(m),
+        };
+        if !ok {
+            return Err("`nodes` keys must be timestamps of representable datetimes.".to_string());
+        }
+        Ok(match model {
+            NodesTimestampDataModel::F64(m) => NodesTimestamp::F64(m),
+            NodesTimestampDataModel::Dual(m) => NodesTimestamp::Dual(m),
+            NodesTimestampDataModel::Dual2(m) => NodesTimestamp::Dual2(m),
+        })
+    }
 }
 
 impl NodesTimestamp {
